@@ -270,11 +270,15 @@ def metamorphic(ck, H, summ, rng, n):
                     continue
                 stats['nc_withholding_pairs'] = stats.get('nc_withholding_pairs', 0) + 1
                 ck.count((year, 'nc-withholding', sec.split(':')[0], owner), nontrivial=True)
-                nA, nB = solution_map(sA).get('nc_d-400.refund'), solution_map(sB).get('nc_d-400.refund')
-                if nA is None or nB is None or abs((nB - nA) - delta) > 1.005:
+                # overpayment (line 28) minus tax due (line 26a): the interest and penalties of lines 26b-26e, which may come or go when
+                # the underpayment crosses $1,000, are not part of "refund minus owed"
+                mA, mB = solution_map(sA), solution_map(sB)
+                nA = (mA.get('nc_d-400.28') or 0.0) - (mA.get('nc_d-400.26a') or 0.0)
+                nB = (mB.get('nc_d-400.28') or 0.0) - (mB.get('nc_d-400.26a') or 0.0)
+                if abs((nB - nA) - delta) > 1.005:
                     ck.violation('C16:%d:nc-withholding-slope:%s:%s' % (year, sec.split(':')[0], owner),
                                  'ty%d: %.2f more N.C. tax withheld on %s.%s (owner %s) moves the N.C. refund-minus-owed by %r' % (
-                                     year, delta, sec, amtkey, owner, None if nA is None or nB is None else nB - nA),
+                                     year, delta, sec, amtkey, owner, nB - nA),
                                  dict(rep, transformation={'set': {'%s.%s' % (sec, statekey): 'NC', '%s.belongs_to' % sec: owner}, 'add': {'%s.%s' % (sec, amtkey): delta}},
                                       observed={'nc_refund_before': nA, 'nc_refund_after': nB}), found=True)
     ck.cov['metamorphic'] = stats
